@@ -16,6 +16,8 @@ characterised as writes by identity.
 * §6 `assignThrough`, `assignExisting` unfolded.
 -/
 namespace Nima
+-- name tokens are compared by spelling in this file (see `NameCmp` in Model/Edit.lean)
+attribute [local instance] NameCmp.spelled
 
 open Node
 
@@ -147,7 +149,7 @@ theorem envIds_length_le (env : List (List Node)) : (envIds env).length ≤ env.
 
 theorem findBinding_spec {vs : List Node} {k : Text} {b : Node} (h : findBinding vs k = some b) :
     b ∈ vs ∧ ∃ i ne v bf af, b = .bind i k ne v bf af := by
-  unfold findBinding at h
+  simp only [findBinding_spelled] at h
   have h1 := List.find?_some h
   have h2 := List.mem_of_find?_eq_some h
   refine ⟨h2, ?_⟩
@@ -654,7 +656,7 @@ theorem find_named_none_of_notBound {frame : List Node} {name : Text} (hname : n
 
 theorem findBinding_none_of_notBound {frame : List Node} {name : Text} (hname : nixName name = name)
     (h : frame.find? (bindsName name) = none) : findBinding frame name = none := by
-  unfold findBinding
+  simp only [findBinding_spelled]
   rw [List.find?_eq_none] at h ⊢
   intro x hx
   have := h x hx
